@@ -11,7 +11,8 @@
 
   Sections: 1 builtin.go = builtin.jq · 2 the native table is covered · 3 operator dispatch
   tables · 4 declarative descriptions of the natives · 5 no index leaves its bounds
-  (native_total) · 6 ill-typed calls raise the documented error · 7 carrier independence.
+  (native_total) · 6 ill-typed calls raise the documented error · 7 carrier independence ·
+  8 gmtime.
 -/
 import Gojq.Proofs.Native
 import Gojq.Generated.BuiltinDefs
@@ -597,6 +598,23 @@ theorem index_in_bounds (vs : List JV) (i : Int) :
     (¬ (0 ≤ clampIndex i (-1) vs.length ∧ clampIndex i (-1) vs.length < vs.length) → indexArr vs i = .null) :=
   ⟨indexArr_in_range vs i, indexArr_out_of_range vs i⟩
 
+/-- `indexString(s, i)`: the code point read is the `j`-th of `[]rune(s)` with `0 ≤ j < len`, and
+    it is returned re-encoded; otherwise null. (`funcImplode` and `flatten` index nothing: they
+    only append.) -/
+theorem index_string_in_bounds (s : Bytes) (i : Int) :
+    (0 ≤ clampIndex i (-1) (Utf8.runes s).length → clampIndex i (-1) (Utf8.runes s).length < (Utf8.runes s).length →
+      ∃ h : (clampIndex i (-1) (Utf8.runes s).length).toNat < (Utf8.runes s).length,
+        indexStr s i = .str (Utf8.encodeRune ((Utf8.runes s)[(clampIndex i (-1) (Utf8.runes s).length).toNat]))) ∧
+    (¬ (0 ≤ clampIndex i (-1) (Utf8.runes s).length ∧ clampIndex i (-1) (Utf8.runes s).length < (Utf8.runes s).length) →
+      indexStr s i = .null) := by
+  constructor
+  · intro h0 h1
+    have hb : (clampIndex i (-1) (Utf8.runes s).length).toNat < (Utf8.runes s).length := by omega
+    refine ⟨hb, ?_⟩
+    simp only [indexStr, h0, h1, and_self, if_true]
+    simp [List.getD, hb]
+  · intro h; simp only [indexStr, h, if_false]
+
 /-- `updateArrayIndex`: the position written is inside the array, or — the index being a Go `int`
     and the array no longer than MaxInt — it is at or beyond the end and the array is grown to
     exactly `i + 1 ≤ 0x20000000` elements; a negative position and a larger one are errors. -/
@@ -731,6 +749,50 @@ theorem carrier_independent_partial (n : Num) (h : fceil n = n) :
     toIntCeilCoded (.float64 n) = toIntCeilCoded (.jsonNumber n) := by
   simp [toIntCeilCoded, h]
 
+/-! ## 8. gmtime / mktime -/
+
+/-- `gmtime` on a whole number of seconds (|t| ≤ 2^53) is the civil-calendar decomposition of
+    Model/Calendar.lean (whose inverse `mktime` is C13's `mktime_gmtime`), with the seconds as a
+    float64. -/
+theorem gmtime_whole_seconds (t : Int) (h : -two53 ≤ t ∧ t ≤ two53) :
+    epochToArray? (.flt (t : Rat)) =
+      let b := Calendar.gmtime t
+      some (.arr [jvInt b.year, jvInt b.month0, jvInt b.day, jvInt b.hour, jvInt b.minute,
+                  .num (secondsFloat b.second 0), jvInt b.weekday, jvInt b.yearday]) := by
+  have hr : ¬ ((t : Rat) < -(two53 : Rat) ∨ (two53 : Rat) < (t : Rat)) := by
+    intro hc
+    rcases hc with hc | hc
+    · have : (t : Rat) < ((-two53 : Int) : Rat) := by simpa using hc
+      have := Rat.intCast_lt_intCast.mp this
+      omega
+    · have := Rat.intCast_lt_intCast.mp hc
+      omega
+  simp only [epochToArray?, Num.toRat?, Option.getD_some, hr, if_false, fracNanos_int, truncRat_int]
+  simp
+
+/-- do `gmtime(q)` and `gmtime(floor q)` agree on year, month, day, hour, minute (and both exist)? -/
+def gmtimeAgrees (q : Rat) : Bool :=
+  match epochToArray? (.flt q), epochToArray? (ffloor (.flt q)) with
+  | some (.arr a), some (.arr b) => a.take 5 == b.take 5
+  | none, none => true
+  | _, _ => false
+
+/-- FULL STATEMENT for fractional epochs: the broken-down time of `q` lies in the second that
+    starts at `floor q`. -/
+def gmtime_statement : Prop := ∀ q : Rat, gmtimeAgrees q = true
+
+/-- The full statement is FALSE of the current code for NEGATIVE fractional epochs: `epochToArray`
+    takes the seconds by `int64(v)` (truncation towards zero) but the nanoseconds from
+    `v - math.Floor(v)`, so −0.5 s becomes 1970-01-01T00:00:00.5 instead of 1969-12-31T23:59:59.5
+    (`gojq -n '-0.5 | gmtime'`; `-1.5 | gmtime | mktime` is −0.5). Finding
+    `law:gmtime-mktime-roundtrip`. Whole seconds (gmtime_whole_seconds) and positive fractions are
+    not affected. -/
+theorem gmtime_negative_fraction_counterexample : ¬ gmtime_statement := by
+  intro h
+  have := h (-1 / 2)
+  revert this
+  decide +kernel
+
 /-! ## Non-vacuity: the hypotheses above are satisfiable, at the boundaries the property names
 (byte strings are written out: `[97]` is "a", `[98]` "b", `[120]` "x", `[121]` "y") -/
 
@@ -782,6 +844,7 @@ example : funcDelpaths (.arr [jvInt 0, jvInt 1, jvInt 2, jvInt 3]) (.arr [.arr [
 example : funcSetpath .null (.arr [.str [97], jvInt 2]) (jvInt 7) =
     .ok (.obj [([97], .arr [.null, .null, jvInt 7])]) := by rfl
 example : fceil (.flt 2) = .flt 2 := by decide +kernel
+example : -two53 ≤ (1425599507 : Int) ∧ (1425599507 : Int) ≤ two53 := by decide
 /-- "-.5e-3" is a number, "1.2.3", "0x10", "1e" are not -/
 example : (scanNumLit [45, 46, 53, 101, 45, 51]).isSome = true ∧ (scanNumLit [49, 46, 50, 46, 51]).isSome = false ∧
     (scanNumLit [48, 120, 49, 48]).isSome = false ∧ (scanNumLit [49, 101]).isSome = false := by decide +kernel
